@@ -155,6 +155,13 @@ class TConv(Equation):
         return self.conv
 
 
+class TConvSub(TConv):
+    """inherits converged() (and everything else) from TConv: an inherited convergence test counts like any other"""
+    def post_loop(self, d_idx, d_s):
+        if d_s[d_idx] >= self.thresh:
+            self.conv = 1.0
+
+
 class TMove(Equation):
     """moves destination particles so that a later update_nnps changes neighbours"""
     def __init__(self, dest, sources, dx=0.05):
@@ -175,5 +182,5 @@ class TTime(Equation):
 
 
 CLASSES = dict(TInit=TInit, TLoop=TLoop, TLoopNoSrc=TLoopNoSrc, TLoopAll=TLoopAll, TInitPair=TInitPair, TPost=TPost, TFull=TFull,
-               TReduce=TReduce, TPyInit=TPyInit, TConv=TConv, TMove=TMove, TTime=TTime)
+               TReduce=TReduce, TPyInit=TPyInit, TConv=TConv, TConvSub=TConvSub, TMove=TMove, TTime=TTime)
 NEEDS_SOURCE = {'TLoop', 'TLoopAll', 'TInitPair', 'TFull'}
